@@ -14,7 +14,7 @@ import (
 func init() {
 	Register(&Property{
 		ID: "C11",
-		Explanation: "Decides the two structural halves of 'a configuration that type-checks cannot fail at check time': (R11.1) every AST node kind and operator the parser can construct has a case in every dispatch of the check engine (no 'not implemented' for parsed configurations); (R11.2) every AST field that the engine later consumes as a relation or namespace name has its deferred type check registered where the node is built, on the token the field was taken from (computed subject set and traverse relation -> relation exists in the current namespace; traverse target relation -> every type of the traversed relation has it; subject types -> namespace exists / namespace has relation); (R11.3) parse runs the deferred checks whenever no syntax error occurred and runs every registered check; (R11.4) the deferred checks that quantify over all types of a relation have no early exit on success (every type is checked); (R11.8) the expression-parsing functions return nil only after an error was recorded (by them, by a failed match, or by the function of the family whose nil result they pass on), so no permission is dropped silently; (R11.7) the parser never wraps a possibly-nil pointer into an AST interface (a typed nil passes every '== nil' test and is dereferenced by the engine at check time); (R11.6) a deferred check reads no parser field that parsing overwrites as it goes (the current namespace, the look-ahead) and writes nothing but the error list, so its outcome depends only on the finished parse; (R11.5) the relations collected for a class are only ever appended to, so no declared relation or permission is lost from the AST the engine evaluates. " +
+		Explanation: "Decides the two structural halves of 'a configuration that type-checks cannot fail at check time': (R11.1) every AST node kind and operator the parser can construct has a case in every dispatch of the check engine (no 'not implemented' for parsed configurations); (R11.2) every AST field that the engine later consumes as a relation or namespace name has its deferred type check registered where the node is built, on the token the field was taken from (computed subject set and traverse relation -> relation exists in the current namespace; traverse target relation -> every type of the traversed relation has it; subject types -> namespace exists / namespace has relation); (R11.3) parse runs the deferred checks whenever no syntax error occurred and runs every registered check; (R11.4) the deferred checks that quantify over all types of a relation have no early exit on success (every type is checked); (R11.10) no case-folding function is called in the parser, the type checks, the namespace look-ups or the engine (names are compared exactly in every layer); (R11.9) the exhausted side of every depth-budget comparison in package schema records an error; (R11.8) the expression-parsing functions return nil only after an error was recorded (by them, by a failed match, or by the function of the family whose nil result they pass on), so no permission is dropped silently; (R11.7) the parser never wraps a possibly-nil pointer into an AST interface (a typed nil passes every '== nil' test and is dereferenced by the engine at check time); (R11.6) a deferred check reads no parser field that parsing overwrites as it goes (the current namespace, the look-ahead) and writes nothing but the error list, so its outcome depends only on the finished parse; (R11.5) the relations collected for a class are only ever appended to, so no declared relation or permission is lost from the AST the engine evaluates. " +
 			"Not decided: that the type checker's rule for SubjectSet<T,R>-typed traversals equals what the engine evaluates (a semantic comparison of two algorithms; known to differ, see DESIGN.md F14).",
 		Assumptions: []string{"the slot table field -> required check constructor (DESIGN.md R11.2) is the specification of which check guards which field"},
 		Run:         runC11,
@@ -30,6 +30,8 @@ func runC11(c *Ctx) {
 	r116(c)
 	r117(c)
 	r118(c)
+	r119(c)
+	noCaseFolding(c, "R11.10", []string{schemaRel, "internal/namespace", "internal/check", "internal/driver/config"})
 }
 
 // itemOfVal: v is <item>.Val ; returns the origin of the item value.
@@ -822,4 +824,125 @@ func r118(c *Ctx) {
 	if n < 6 {
 		r.Undecide("R11.8", "", "nil returns of the expression parser", "", fmt.Sprintf("%d found (floor 6)", n))
 	}
+}
+
+// ---- R11.9 an exhausted nesting budget is an error, never an acceptance ------------------------------
+
+// r119: the recursive type check and the expression parser carry a depth
+// budget. When it is exhausted the rest of the structure has not been checked;
+// the exhausted side of every comparison of that budget must record an error.
+// A side that just stops accepts what it did not look at.
+func r119(c *Ctx) {
+	p, r := c.P, c.R
+	pkgPath := core.KetoMod + "/" + schemaRel
+	n := 0
+	for _, fn := range p.KetoFuncs(schemaRel) {
+		if fn.Parent() != nil {
+			continue
+		}
+		// a self- or mutually recursive function with exactly one int parameter named like a budget
+		var dp *ssa.Parameter
+		for _, par := range fn.Params {
+			if b, ok := par.Type().Underlying().(*types.Basic); ok && b.Kind() == types.Int && strings.Contains(strings.ToLower(par.Name()), "depth") {
+				dp = par
+			}
+		}
+		if dp == nil {
+			continue
+		}
+		for _, b := range fn.Blocks {
+			if len(b.Instrs) == 0 {
+				continue
+			}
+			ifi, ok := b.Instrs[len(b.Instrs)-1].(*ssa.If)
+			if !ok {
+				continue
+			}
+			op, x, y, ok := core.BinCmp(ifi.Cond)
+			if !ok || core.ValueOrigin(x) != ssa.Value(dp) {
+				continue
+			}
+			if _, isK := core.IntConst(y); !isK {
+				continue
+			}
+			exhausted := -1
+			switch op {
+			case token.LEQ, token.LSS, token.EQL:
+				exhausted = 0
+			case token.GTR, token.GEQ, token.NEQ:
+				exhausted = 1
+			}
+			if exhausted < 0 {
+				continue
+			}
+			n++
+			// every path from the exhausted side to a return passes an error-recording call
+			seen := map[*ssa.BasicBlock]bool{}
+			leak := false
+			var walk func(blk *ssa.BasicBlock)
+			walk = func(blk *ssa.BasicBlock) {
+				if seen[blk] || leak {
+					return
+				}
+				seen[blk] = true
+				for _, ins := range blk.Instrs {
+					if ci, ok := ins.(ssa.CallInstruction); ok {
+						if obj := core.CalleeObj(ci.Common()); obj != nil && obj.Pkg() != nil && obj.Pkg().Path() == pkgPath && (obj.Name() == "addErr" || obj.Name() == "addFatal") {
+							return
+						}
+					}
+				}
+				if len(blk.Succs) == 0 {
+					leak = true
+					return
+				}
+				for _, sc := range blk.Succs {
+					walk(sc)
+				}
+			}
+			walk(b.Succs[exhausted])
+			r.Check(!leak, "R11.9", core.FuncName(fn), "exhausted depth budget", p.Pos(ifi.Cond.Pos()),
+				"the exhausted side of the depth comparison records an error",
+				"when the nesting budget is used up the function goes on to return without recording an error: whatever lies deeper is accepted unchecked")
+		}
+	}
+	if n < 2 {
+		r.Undecide("R11.9", "", "depth comparisons in package schema", "", fmt.Sprintf("%d found (floor 2: expression nesting, recursive type check)", n))
+	}
+}
+
+// ---- R11.10 names are compared exactly in every layer ------------------------------------------------
+
+// noCaseFolding: relation and namespace names are case sensitive in the store,
+// the engine and the namespace manager. A layer that folds case (EqualFold,
+// ToLower, ToUpper) accepts what the others reject. No keto function on a
+// configuration or request path calls a case-folding function.
+func noCaseFolding(c *Ctx, rule string, rels []string) {
+	p, r := c.P, c.R
+	var bad []string
+	nFns := 0
+	for _, rel := range rels {
+		for _, fn := range p.KetoFuncs(rel) {
+			nFns++
+			core.Instrs(fn, func(_ *ssa.BasicBlock, _ int, ins ssa.Instruction) {
+				ci, ok := ins.(ssa.CallInstruction)
+				if !ok {
+					return
+				}
+				obj := core.CalleeObj(ci.Common())
+				if obj == nil || obj.Pkg() == nil {
+					return
+				}
+				if pth := obj.Pkg().Path(); pth == "strings" || pth == "bytes" || pth == "unicode" || strings.HasPrefix(pth, "golang.org/x/text/cases") {
+					switch obj.Name() {
+					case "EqualFold", "ToLower", "ToUpper", "Title", "ToTitle", "Fold", "SimpleFold":
+						bad = append(bad, fmt.Sprintf("%s calls %s.%s at %s", core.FuncName(fn), pth, obj.Name(), p.Pos(ins.Pos())))
+					}
+				}
+			})
+		}
+	}
+	r.Check(len(bad) == 0, rule, strings.Join(rels, ", "), "no case folding of names", "",
+		fmt.Sprintf("no case-folding call in %d functions", nFns),
+		strings.Join(bad, "; ")+": names, relations and actions are compared exactly everywhere else, so the layer that folds case accepts (or selects) what the others do not")
 }
